@@ -33,10 +33,12 @@ Scenario == /\ IsEvent("Scenario") /\ pc = "done"
             /\ exit' = None /\ pc' = "start"
 
 IsCram == Script(sc, d)
-Faulty == (\E j \in 1..NDocs : sc.docs[j].fault # "no") \/ sc.noshell
+Faulty == (\E j \in 1..NDocs : sc.docs[j].fault \in FaultKinds) \/ sc.noshell
 
 \* DocStart is emitted just before the executor runs: the document was read, parsed and assembled
-TDocStart  == /\ pc = "start" /\ ~Faulty /\ IsEvent("DocStart") /\ E.n = Len(Cur) /\ StartDoc
+TDocStart  == /\ pc = "start" /\ ~Faulty /\ sc.docs[d].fault # "nomatch" /\ IsEvent("DocStart") /\ E.n = Len(Cur) /\ StartDoc
+\* a given file that is no test document by its name never becomes a document: no event
+TNoMatch   == /\ pc = "start" /\ ~Faulty /\ sc.docs[d].fault = "nomatch" /\ Silent /\ StartDoc
 TFault     == /\ pc = "start" /\ Faulty /\ Silent /\ StartDoc
 \* the logged numbers themselves: the chosen limit is the smaller of the defined ones (C14's core, at the linearisation point)
 MinMs(a, b) == IF a = -1 THEN b ELSE IF b = -1 THEN a ELSE IF a <= b THEN a ELSE b
@@ -57,7 +59,7 @@ THandle(A) == /\ pc = "handle" /\ ~IsCram /\ IsEvent("ExecEnd") /\ E.index = k -
 TCramHandle(A) == /\ pc = "handle" /\ IsCram /\ Silent /\ A
 TSilent(A) == Silent /\ A
 
-TraceNext == \/ Scenario \/ TDocStart \/ TFault \/ TPickLimit \/ TCramPick \/ TRun
+TraceNext == \/ Scenario \/ TDocStart \/ TNoMatch \/ TFault \/ TPickLimit \/ TCramPick \/ TRun
              \/ THandle(OnCode) \/ THandle(OnSkip) \/ THandle(OnTimeout) \/ THandle(OnUnknown) \/ THandle(OnDetached)
              \/ TCramHandle(OnCode) \/ TCramHandle(OnSkip) \/ TCramHandle(OnTimeout) \/ TCramHandle(OnUnknown)
              \/ TSilent(ValidateDoc) \/ TSilent(EndDoc) \/ TSilent(Finish)
